@@ -79,6 +79,39 @@ func verifyBeforeSet(r *Run, rule string) {
 			}
 		})
 	}
+	// success is reported only for a verified signature: every `return nil` of an AddSignature
+	// implementation lies behind Verify(..) == true for the offered signature, or behind the offered
+	// signature being equal to the one already verified and stored for that key (merge flags and
+	// finalized-proof validation are derived from this result)
+	for _, fn := range append(append([]*ssa.Function{}, gfns...), w.FuncsInPkg("gcrypto/gblsminsig")...) {
+		if fn.Name() != "AddSignature" || fn.Signature.Recv() == nil || fn.Signature.Results().Len() != 1 || len(fn.Params) != 3 {
+			continue
+		}
+		tn := typeBaseName(fn.Signature.Recv().Type())
+		if tn != "SimpleCommonMessageSignatureProof" && tn != "SignatureProof" {
+			continue
+		}
+		a := w.AU(fn)
+		verified, _ := a.IfEdges("@@gcrypto.PubKey.Verify($key,p0.msg,p1)", true, nil)
+		v2, _ := a.IfEdges("@gblsminsig.PubKey.Verify($key,p0.msg,p1)", true, nil)
+		verified = append(verified, v2...)
+		same, _ := a.IfEdges("@blst.P1Affine.Equals($got,$have)", true, func(b Bind) bool {
+			return strings.Contains(b["$got"].String()+b["$have"].String(), "p1") && strings.Contains(b["$got"].String()+b["$have"].String(), "sigtree.Tree.Get(")
+		})
+		n := 0
+		for _, ret := range a.Returns() {
+			k, isK := ret.Results[0].(*ssa.Const)
+			if !isK || !k.IsNil() {
+				continue
+			}
+			n++
+			ok := a.EveryPathTakes(ret, verified, same)
+			r.Check(ok, rule, fmt.Sprintf("%s#success-return%d", FuncName(fn), n), w.InstrPos(ret), "AddSignature may report success only after verifying the offered signature (or finding it identical to the stored, verified one)")
+		}
+		if n == 0 {
+			r.Fail(rule, FuncName(fn)+"#success-return", w.Pos(fn.Pos()), "no success return found")
+		}
+	}
 	// who writes the fields at all (other than constructors / Clone / Derive which build new values)
 	for _, f := range []string{"sigs", "bitset"} {
 		for _, fw := range w.FieldWrites(gfns, "gcrypto.SimpleCommonMessageSignatureProof", f) {
